@@ -22,7 +22,8 @@ CORR_IMPORTS = ['QV.C05.Model', 'QV.C05.Corr']
 CHECK_CORR = 'check_corr'
 CHECK_SPEC = 'check_spec'
 SHARD = 60
-RULE = ('template trees over ConstantPT/TablePT atoms (hold/linear/jump, 1-2 channels) with SequencePT, RepetitionPT '
+RULE = ('template trees over ConstantPT/TablePT/FunctionPT atoms and AtomicMultiChannelPT of them (hold/linear/jump, 1-2 '
+        'channels), MappingPT measurement renaming, with SequencePT, RepetitionPT '
         '(count 0..3), ForLoopPT (positive/negative/empty ranges, index-dependent values and durations), MappingPT '
         '(channel renaming), ParallelChannelPT (overwrite / add channel), ArithmeticPT (scalar, + - * /, both operand '
         'orders, per-channel dict), TimeReversalPT, measurement declarations on atoms/sequences/repetitions/loops; '
@@ -30,7 +31,8 @@ RULE = ('template trees over ConstantPT/TablePT atoms (hold/linear/jump, 1-2 cha
         'x global transformation in {None, offset, scaling, parallel-channel, linear, chain}; observation = leaf-walk '
         'samples on the grid of all ticks (every junction is a grid point), sorted windows, duration, for the option '
         'run and the plain run; plus convenience constructors (@, concatenate, with_repetition/**, with_mapping '
-        'chains, with_parallel_channels chains, with_time_reversal twice, with_iteration, pad_to, with_appended) '
+        'chains incl. measurement names, with_parallel_channels chains, with_parallel_atomic, with_time_reversal twice, '
+        'with_iteration, pad_to, with_appended) '
         'against the explicit nesting.  Non-trivial = at least 2 nodes and (non-empty effective set or a '
         'transformation or a constructor case); distinct = distinct canonical JSON.')
 TRUSTED = [
@@ -45,8 +47,10 @@ ASSUMPTIONS = [
     'global transformations and arithmetic scalars are time independent',
     'TablePT channels start at t=0, end at a common time and are either all-equal or consecutive-different in value '
     '(the constant-detection defect of TableWaveform._validate_input belongs to C01/C08)',
-    'get_sampled\'s per-channel constant short-cut is not modelled (it cannot be observed on [0, duration))',
-    'MappingPT is modelled for channel renaming only; parameters are closed (for-loop indices are substituted)',
+    'get_sampled\'s per-channel constant short-cut is modelled only for whether it raises KeyError (cvalue); its values '
+    'cannot be observed on [0, duration)',
+    'MappingPT is modelled for channel and measurement renaming; parameters are closed (for-loop indices are substituted)',
+    'an AtomicMultiChannelPT is flattened to one atom by the harness printer (MultiChannelWaveform.from_parallel)',
 ]
 
 CH = {'A': 1, 'B': 2, 'C': 3, 'X': 4, 'Y': 5, 'Z': 6}
@@ -948,6 +952,30 @@ def linear_after_parallel(G):
     return False
 
 
+def merged_values_lost(case, obs):
+    """independent oracle for with_parallel_channels on an UNNAMED ParallelChannelPT (the value dicts are merged into one
+    node): the channels given in the call must play the given values.  Only judged when nothing below can overwrite
+    them again (no further ParallelChannelPT inside), so that the known inner-wins defect cannot interfere."""
+    if case['kind'] != 'ctor' or case['op'] != 'par' or 'o1' not in obs:
+        return None
+    a = case['args'][0]
+    if a['k'] != 'par' or a.get('id') is not None or 'par' in kinds_in(a['sub']) or obs['o1'].get('none') \
+            or obs['o1'].get('raise'):
+        return None
+    for ch, v in case['ov'].items():
+        want = vlib.frac_json(F(v))
+        got = obs['o1']['samples'].get(ch)
+        if got is None or any(x != want for x in got):
+            return 'with_parallel_channels(%s=%s) on an unnamed ParallelChannelPT does not play the new value' % (ch, v)
+    return None
+
+
+def py_spec(case, obs):
+    if 'crash' in obs or 'hang' in obs:
+        return None
+    return merged_values_lost(case, obs)
+
+
 def classify(case, obs):
     if 'crash' in obs or 'hang' in obs:
         return None
@@ -960,6 +988,8 @@ def classify(case, obs):
         if par_gets_transformation(case['tree'], case['G']) and (eff or case['G'] is not None):
             return 'parallel_channel_before_global_transformation'
         return None
+    if merged_values_lost(case, obs):
+        return None                      # not the known inner-wins defect: the merge itself lost the new value
     if case['op'] == 'par' and case['args'][0]['k'] == 'par' or \
             par_gets_transformation(ctor_explicit(case), None) or par_gets_transformation(obs['built'], None):
         return 'parallel_channel_before_global_transformation'
@@ -967,12 +997,18 @@ def classify(case, obs):
 
 
 MANIFEST = {
-    'level_text': 'Proof (partial): for a faithful executable model of create_program with to_single_waveform / '
-                  'global_transformation (builder, to_waveform, waveform sampling, transformation chaining) the '
-                  'option-independence theorems are proved for all template trees under two executable guards that '
-                  'exclude the two confirmed defect classes, which are refuted on witnesses; the model is tied to '
-                  '/repo by an exact correspondence check.',
+    'level_text': 'Proof: for a faithful executable model of create_program with to_single_waveform / '
+                  'global_transformation (builder, to_waveform, waveform sampling, transformation chaining, KeyError as '
+                  'explicit result) it is proved for ALL template trees, all sets of collapsed nodes and all '
+                  'transformation chains that collapsing changes neither voltages nor duration nor the multiset of '
+                  'measurement windows, that a global transformation acts pointwise, and that compiled programs are '
+                  'well-formed - under two executable guards that exclude the two confirmed defect classes, which are '
+                  'refuted on witnesses. Constructor claims proved: concatenate/@/with_appended, pad_to, double '
+                  'with_time_reversal, chained with_parallel_channels (guarded + refuted). Still only tested: '
+                  'with_repetition count merging, chained with_mapping, with_parallel_atomic flattening. The model is '
+                  'tied to /repo by an exact correspondence check.',
     'level_note': 'see notes/C05.md for which statements are full / guarded / only tested',
-    'technique': 'Coq proof by induction over template trees + correspondence check on generated trees x option subsets',
+    'technique': 'Coq proof by induction over template trees (frame lemma on builder states) + correspondence check on '
+                 'generated trees x option subsets + one independent Python oracle for with_parallel_channels',
     'design_ref': 'DESIGN.md §5 C05',
 }
